@@ -1,0 +1,145 @@
+// Verification hooks for the QUIC connection event loop (cfg(feature = "verif") only, adds code
+// only): a pair of quinn connections over loopback UDP set up the way the listener and the
+// dialer set theirs up (litep2p TLS configs), side A wrapped in the production
+// `QuicConnection::new` with a caller-supplied `ProtocolSet` and exposed as a pollable event
+// loop, side R as a bare peer that opens / accepts bidirectional streams and runs
+// multistream-select on them.
+
+use super::{
+    connection::QuicConnection,
+    substream::NegotiatingSubstream,
+};
+
+use crate::{
+    crypto::{
+        ed25519::Keypair,
+        tls::{make_client_config, make_server_config},
+    },
+    multistream_select::{dialer_select_proto, listener_select_proto, Version},
+    protocol::ProtocolSet,
+    transport::Endpoint as Litep2pEndpoint,
+    types::ConnectionId,
+    BandwidthSink, PeerId,
+};
+
+use futures::AsyncWriteExt;
+use multiaddr::{Multiaddr, Protocol};
+use quinn::{ClientConfig, Connection, Endpoint, ServerConfig};
+
+use std::{
+    net::{IpAddr, Ipv4Addr, SocketAddr},
+    sync::Arc,
+    time::Duration,
+};
+
+/// Side A: the production connection object.
+pub struct VerifQuicLoop(QuicConnection);
+
+impl VerifQuicLoop {
+    /// The crate-private event loop.
+    pub async fn start(self) -> crate::Result<()> {
+        self.0.start().await
+    }
+}
+
+/// Side R: a bare QUIC peer.
+pub struct VerifQuicRaw {
+    connection: Connection,
+    _client: Endpoint,
+    _server: Endpoint,
+}
+
+/// A bidirectional stream of side R on which nothing has been negotiated yet, or a negotiated
+/// one that is only kept open.
+pub struct VerifQuicStream(#[allow(dead_code)] Option<NegotiatingSubstream>);
+
+impl VerifQuicRaw {
+    /// Open a bidirectional stream and propose `names` (dialer side of multistream-select);
+    /// `stall`: only the multistream header is written. The stream is handed back to be held.
+    pub async fn open(&self, names: Vec<String>, stall: bool) -> Option<VerifQuicStream> {
+        let (send, recv) = self.connection.open_bi().await.ok()?;
+        let mut stream = NegotiatingSubstream::new(send, recv);
+        if stall {
+            stream.write_all(b"\x13/multistream/1.0.0\n").await.ok()?;
+            stream.flush().await.ok()?;
+            return Some(VerifQuicStream(Some(stream)));
+        }
+        let names = names.iter().map(|name| &**name).collect::<Vec<&str>>();
+        let (_, io) = dialer_select_proto(stream, names, Version::V1).await.ok()?;
+        Some(VerifQuicStream(Some(io.inner())))
+    }
+
+    /// The next stream opened by side A.
+    pub async fn next_inbound(&self) -> Option<VerifQuicStream> {
+        let (send, recv) = self.connection.accept_bi().await.ok()?;
+        Some(VerifQuicStream(Some(NegotiatingSubstream::new(send, recv))))
+    }
+
+    /// Close the connection (application close).
+    pub fn close(&self) {
+        self.connection.close(0u32.into(), b"");
+    }
+}
+
+impl VerifQuicStream {
+    /// Listener side of multistream-select with `names` as the supported protocols.
+    pub async fn negotiate(self, names: Vec<String>) -> Option<VerifQuicStream> {
+        let stream = self.0?;
+        let names = names.iter().map(|name| &**name).collect::<Vec<&str>>();
+        let (_, io) = listener_select_proto(stream, names).await.ok()?;
+        Some(VerifQuicStream(Some(io.inner())))
+    }
+}
+
+/// Two connected ends over loopback; A is the accepting side.
+pub async fn verif_pair(
+    keypair_a: Keypair,
+    keypair_r: Keypair,
+    connection_id: ConnectionId,
+    protocol_set: ProtocolSet,
+    substream_open_timeout: Duration,
+) -> Option<(VerifQuicLoop, VerifQuicRaw)> {
+    let peer_a = PeerId::from_public_key(&keypair_a.public().into());
+    let peer_r = PeerId::from_public_key(&keypair_r.public().into());
+
+    let crypto_config = Arc::new(make_server_config(&keypair_a).ok()?);
+    let server_config = ServerConfig::with_crypto(crypto_config);
+    let server =
+        Endpoint::server(server_config, SocketAddr::new(IpAddr::V4(Ipv4Addr::LOCALHOST), 0)).ok()?;
+    let address = server.local_addr().ok()?;
+
+    let crypto_config = Arc::new(make_client_config(&keypair_r, Some(peer_a)).ok()?);
+    let client_config = ClientConfig::new(crypto_config);
+    let client = Endpoint::client(SocketAddr::new(IpAddr::V4(Ipv4Addr::UNSPECIFIED), 0)).ok()?;
+    let connecting = client.connect_with(client_config, address, "l").ok()?;
+
+    let (dialed, accepted) = tokio::join!(connecting, async {
+        match server.accept().await {
+            Some(incoming) => incoming.await.ok(),
+            None => None,
+        }
+    });
+    let (dialed, accepted) = (dialed.ok()?, accepted?);
+
+    let multiaddr = Multiaddr::empty()
+        .with(Protocol::from(accepted.remote_address().ip()))
+        .with(Protocol::Udp(accepted.remote_address().port()))
+        .with(Protocol::QuicV1)
+        .with(Protocol::P2p(peer_r.into()));
+
+    Some((
+        VerifQuicLoop(QuicConnection::new(
+            peer_r,
+            Litep2pEndpoint::listener(multiaddr, connection_id),
+            accepted,
+            protocol_set,
+            BandwidthSink::new(),
+            substream_open_timeout,
+        )),
+        VerifQuicRaw {
+            connection: dialed,
+            _client: client,
+            _server: server,
+        },
+    ))
+}
